@@ -9,6 +9,7 @@ first = json.load(open(os.path.join(VERIF, "tools", "seed_first_run.json")))
 first2 = json.load(open(os.path.join(VERIF, "tools", "seed_first_run_r2.json")))
 first2.update(json.load(open(os.path.join(VERIF, "tools", "seed_first_run_r3.json"))))
 first2.update(json.load(open(os.path.join(VERIF, "tools", "seed_first_run_r4.json"))))
+first2.update(json.load(open(os.path.join(VERIF, "tools", "seed_first_run_r5.json"))))
 rows = []
 for d in sorted(glob.glob(os.path.join(VERIF, "seeded", "*"))):
     name = os.path.basename(d)
